@@ -653,6 +653,27 @@ func c10R4(r *Report) {
 			}
 			return rec(v, 0)
 		}
+		// the caller's buffer, possibly clipped (a = a[:remain])
+		var isCallerBuf func(v ssa.Value, d int) bool
+		isCallerBuf = func(v ssa.Value, d int) bool {
+			if d > 4 {
+				return false
+			}
+			switch x := v.(type) {
+			case *ssa.Parameter:
+				return x == read.Params[1]
+			case *ssa.Slice:
+				return isCallerBuf(x.X, d+1)
+			case *ssa.Phi:
+				for _, e := range x.Edges {
+					if !isCallerBuf(e, d+1) {
+						return false
+					}
+				}
+				return len(x.Edges) > 0
+			}
+			return false
+		}
 		rearmed := edgeReq{Name: "something was read, an error is reported, or the shortcut is disarmed",
 			Match: func(cond ssa.Value, pol bool) bool {
 				op, x, y, ok := cmpFact(Guard{Cond: cond, Pol: pol})
@@ -663,7 +684,7 @@ func c10R4(r *Report) {
 						}
 						// len(a) == 0: an empty read
 						if c, isC := stripIntConv(x).(*ssa.Call); isC {
-							if bi, isb := c.Call.Value.(*ssa.Builtin); isb && bi.Name() == "len" && len(c.Call.Args) == 1 && c.Call.Args[0] == ssa.Value(read.Params[1]) && (op == token.EQL || op == token.LEQ) {
+							if bi, isb := c.Call.Value.(*ssa.Builtin); isb && bi.Name() == "len" && len(c.Call.Args) == 1 && isCallerBuf(c.Call.Args[0], 0) && (op == token.EQL || op == token.LEQ) {
 								return true
 							}
 						}
